@@ -2,7 +2,7 @@
    Each corresponds to one open entry of findings/C18.json and to the guard of the positive theorem. *)
 From Coq Require Import List Arith ZArith Bool Lia.
 Import ListNotations.
-Require Import FV.C18.Model FV.C18.LemmasSt FV.C18.LemmasFe FV.C18.LemmasLi.
+Require Import FV.C18.Model FV.C18.LemmasSt FV.C18.LemmasFe FV.C18.LemmasLi FV.C18.LemmasCo.
 
 (* layout without combined read/write methods: the driver assigns the struct, the members keep their old values *)
 Definition L_members : St.layout :=
@@ -41,4 +41,36 @@ Theorem C18_refuted_limits_tuple_shadows_min_max :
 Proof.
   exists L_shadow, [Li.WriteMin 0%Z], (-5)%Z. eexists. eexists. split; [vm_compute; reflexivity|].
   intros (_ & _ & H & _). specialize (H eq_refl). vm_compute in H. apply H. reflexivity.
+Qed.
+
+(* generated write_<struct>: the second member write raises after the first member was written *)
+Definition L_two : St.layout :=
+  {| St.sl_n := 2; St.sl_rw := false; St.sl_sr := false; St.sl_sw := false; St.sl_mr := [true; true]; St.sl_mw := [true; true];
+     St.sl_lo := (-100)%Z; St.sl_hi := 100%Z |}.
+Theorem C18_refuted_struct_write_partial_failure :
+  exists L ops, Forall (LemmasSt.op_wf L) ops /\ Forall (LemmasSt.op_safe L) ops /\
+    St.est (St.run L ops) = false /\ nth 0 (St.cst (St.run L ops)) 0%Z <> nth 0 (St.cmem (St.run L ops)) 0%Z.
+Proof.
+  exists L_two, [St.Fault [] [false; true]; St.WriteS [5%Z; 6%Z]].
+  split; [repeat constructor|]. split; [repeat constructor|]. vm_compute. split; [reflexivity|discriminate].
+Qed.
+
+(* generated read_<struct>: the second member read raises after the first member was refreshed; the struct is in error
+   state; the next update of the other member republishes the struct with the stale first member *)
+Theorem C18_refuted_struct_read_partial_failure :
+  exists L ops, Forall (LemmasSt.op_wf L) ops /\ Forall (LemmasSt.op_safe L) ops /\
+    St.est (St.run L ops) = false /\ nth 0 (St.cst (St.run L ops)) 0%Z <> nth 0 (St.cmem (St.run L ops)) 0%Z.
+Proof.
+  exists L_two, [St.Hw [5%Z; 6%Z]; St.Fault [false; true] []; St.ReadS; St.Fault [] []; St.ReadM 1].
+  split; [repeat constructor|]. split; [repeat constructor|]. vm_compute. split; [reflexivity|discriminate].
+Qed.
+
+(* the output's own target is written while the switch-off of the controlling module raises: self_controlled has
+   already set controlled_by = self, the controller stays marked *)
+Theorem C18_refuted_self_controlled_switch_off_fails :
+  exists kinds ops, Forall (LemmasCo.op_wf kinds) ops /\
+    Co.by_ (Co.run kinds ops) = 0 /\ nth 0 (Co.act (Co.run kinds ops)) false = true.
+Proof.
+  exists [2], [Co.WriteT 0 1%Z; Co.CFault [true]; Co.WriteO 2%Z].
+  split; [repeat constructor|]. vm_compute. split; reflexivity.
 Qed.
